@@ -21,13 +21,21 @@ func checkLeaseDeadlineRepresentable(c *Ctx, rule string) {
 	p := c.P
 	n := 0
 	seen := map[*ssa.Function]bool{}
+	isCmp := func(call *ssa.Call) bool {
+		return calleeIs(call, "time", "Time", "After") || calleeIs(call, "time", "Time", "Before")
+	}
 	for _, t := range p.sqlTransitions("sqlite") {
 		if t.To != "leased" || t.Stmt.Fn == nil {
 			continue
 		}
 		// the deadline parameter/local of the statement's function traces to an Add call in a caller
-		var adds []*ssa.Call
-		var holders []*ssa.Function
+		type cand struct {
+			add    *ssa.Call
+			fn     *ssa.Function
+			passed []ssa.Value // the values handed on towards the statement
+			flow   map[ssa.Value]bool
+		}
+		var cands []cand
 		visit := map[*ssa.Function]bool{}
 		var up func(fn *ssa.Function, depth int)
 		up = func(fn *ssa.Function, depth int) {
@@ -38,18 +46,30 @@ func checkLeaseDeadlineRepresentable(c *Ctx, rule string) {
 			found := false
 			for _, b := range fn.Blocks {
 				for _, ins := range b.Instrs {
-					if call, ok := ins.(*ssa.Call); ok && calleeIs(call, "time", "Time", "Add") {
-						// its result is passed on (to a callee or to UnixNano) — lease deadline candidates only: named leaseUntil-ish by flow to calls
-						for _, ref := range *call.Referrers() {
-							if ci, ok := ref.(ssa.CallInstruction); ok {
-								g := ci.Common().StaticCallee()
-								if g != nil && (p.Reach(g)[t.Stmt.Fn] || g == t.Stmt.Fn || (g.Name() == "UnixNano" && fn == t.Stmt.Fn)) {
-									adds = append(adds, call)
-									holders = append(holders, fn)
-									found = true
-								}
+					call, ok := ins.(*ssa.Call)
+					if !ok || !calleeIs(call, "time", "Time", "Add") {
+						continue
+					}
+					flow := forwardFlow(call)
+					var passed []ssa.Value
+					for v := range flow {
+						if v.Referrers() == nil {
+							continue
+						}
+						for _, ref := range *v.Referrers() {
+							ci, ok := ref.(ssa.CallInstruction)
+							if !ok {
+								continue
+							}
+							g := ci.Common().StaticCallee()
+							if g != nil && (p.Reach(g)[t.Stmt.Fn] || g == t.Stmt.Fn || (g.Name() == "UnixNano" && fn == t.Stmt.Fn)) {
+								passed = append(passed, v)
 							}
 						}
+					}
+					if len(passed) > 0 {
+						cands = append(cands, cand{call, fn, passed, flow})
+						found = true
 					}
 				}
 			}
@@ -63,32 +83,108 @@ func checkLeaseDeadlineRepresentable(c *Ctx, rule string) {
 			}
 		}
 		up(t.Stmt.Fn, 0)
-		for i, add := range adds {
-			fn := holders[i]
+		for _, cd := range cands {
+			fn, add := cd.fn, cd.add
 			if seen[fn] {
 				continue
 			}
 			seen[fn] = true
 			n++
 			bounded := ""
-			// (b) deadline compared with an instant
-			for _, ref := range *add.Referrers() {
-				if call, ok := ref.(*ssa.Call); ok && (calleeIs(call, "time", "Time", "After") || calleeIs(call, "time", "Time", "Before")) {
-					bounded = "deadline compared with a fixed instant at " + p.InstrPos(call)
+			// (b) the deadline handed on is min(deadline, fixed instant): every value passed on is a merge that the raw
+			// sum enters only on the not-after side of a comparison with an instant that does not derive from it
+			// (or, for a captured variable, a comparison of the variable followed by a conditional overwrite).
+			guardedEntry := func(phi *ssa.Phi) string {
+				for i, e := range phi.Edges {
+					if e != ssa.Value(add) {
+						continue
+					}
+					pred := phi.Block().Preds[i]
+					conds := dominatingConds(pred, nil)
+					if ifi, ok := pred.Instrs[len(pred.Instrs)-1].(*ssa.If); ok {
+						for k := 0; k < 2; k++ {
+							if pred.Succs[k] == phi.Block() && pred.Succs[1-k] != phi.Block() {
+								cond, val := ifi.Cond, k == 0
+								for {
+									if u, ok := cond.(*ssa.UnOp); ok && u.Op == token.NOT {
+										cond, val = u.X, !val
+										continue
+									}
+									break
+								}
+								conds = append(conds, pathCond{cond, val})
+							}
+						}
+					}
+					ok := false
+					for _, pc := range conds {
+						call, isCall := pc.Cond.(*ssa.Call)
+						if !isCall || !isCmp(call) || pc.Val || len(call.Call.Args) != 2 {
+							continue
+						}
+						a0, a1 := call.Call.Args[0], call.Call.Args[1]
+						if calleeIs(call, "time", "Time", "After") && a0 == ssa.Value(add) && !cd.flow[a1] {
+							ok = true
+						}
+						if calleeIs(call, "time", "Time", "Before") && a1 == ssa.Value(add) && !cd.flow[a0] {
+							ok = true
+						}
+					}
+					if !ok {
+						return ""
+					}
 				}
-				if st, ok := ref.(*ssa.Store); ok {
-					if al, ok := st.Addr.(*ssa.Alloc); ok {
+				return "deadline saturated at a fixed instant at " + p.Pos(phi.Pos())
+			}
+			all := true
+			why := ""
+			for _, v := range cd.passed {
+				switch x := v.(type) {
+				case *ssa.Phi:
+					w := guardedEntry(x)
+					if w == "" {
+						all = false
+					} else {
+						why = w
+					}
+				case *ssa.UnOp: // load of a captured/addressed variable
+					al, _ := x.X.(*ssa.Alloc)
+					w := ""
+					if al != nil {
 						for _, r2 := range *al.Referrers() {
-							if ld, ok := r2.(*ssa.UnOp); ok {
-								for _, r3 := range *ld.Referrers() {
-									if call, ok := r3.(*ssa.Call); ok && (calleeIs(call, "time", "Time", "After") || calleeIs(call, "time", "Time", "Before")) {
-										bounded = "deadline compared with a fixed instant at " + p.InstrPos(call)
+							ld, ok := r2.(*ssa.UnOp)
+							if !ok {
+								continue
+							}
+							for _, r3 := range *ld.Referrers() {
+								call, ok := r3.(*ssa.Call)
+								if !ok || !isCmp(call) {
+									continue
+								}
+								// a store into the same variable controlled by this comparison
+								for _, r4 := range *al.Referrers() {
+									if st, ok := r4.(*ssa.Store); ok && st.Val != ssa.Value(add) && !cd.flow[st.Val] {
+										for _, pc := range dominatingConds(st.Block(), nil) {
+											if pc.Cond == ssa.Value(call) {
+												w = "deadline variable compared and overwritten at " + p.InstrPos(st)
+											}
+										}
 									}
 								}
 							}
 						}
 					}
+					if w == "" {
+						all = false
+					} else {
+						why = w
+					}
+				default:
+					all = false
 				}
+			}
+			if all && why != "" {
+				bounded = why
 			}
 			// (a) TTL bounded above by a constant, in this function or its callers in the package
 			fns := []*ssa.Function{fn}
@@ -121,4 +217,40 @@ func checkLeaseDeadlineRepresentable(c *Ctx, rule string) {
 		}
 	}
 	c.Floor(rule, "lease deadline computations", n, 1)
+}
+
+// forwardFlow: v and every value v flows into unchanged inside its function — merges it enters and loads of
+// variables it is stored to.
+func forwardFlow(v ssa.Value) map[ssa.Value]bool {
+	out := map[ssa.Value]bool{v: true}
+	work := []ssa.Value{v}
+	for len(work) > 0 {
+		x := work[len(work)-1]
+		work = work[:len(work)-1]
+		if x.Referrers() == nil {
+			continue
+		}
+		for _, ref := range *x.Referrers() {
+			switch r := ref.(type) {
+			case *ssa.Phi:
+				if !out[r] {
+					out[r] = true
+					work = append(work, r)
+				}
+			case *ssa.Store:
+				if r.Val != x {
+					continue
+				}
+				if al, ok := r.Addr.(*ssa.Alloc); ok {
+					for _, r2 := range *al.Referrers() {
+						if ld, ok := r2.(*ssa.UnOp); ok && ld.Op == token.MUL && !out[ld] {
+							out[ld] = true
+							work = append(work, ld)
+						}
+					}
+				}
+			}
+		}
+	}
+	return out
 }
